@@ -241,7 +241,7 @@ def replay_concrete(kind, sched_kind, nb, B, E, folder, k):
     from black_it.schedulers.rl.agents.epsilon_greedy import MABEpsilonGreedy
     from black_it.schedulers.rl.envs.mab import MABCalibrationEnv
 
-    def run(fault):
+    def run(fault, use_folder=True):
         cnt = {"n": 0, "exc": None}
 
         def tick():
@@ -263,14 +263,14 @@ def replay_concrete(kind, sched_kind, nb, B, E, folder, k):
             kw = dict(samplers=[sa, sb])
         else:
             kw = dict(scheduler=rls.RLScheduler([sa, sb], ScriptAgent(2), MABCalibrationEnv(3), random_state=0))
-        tmp = tempfile.mkdtemp(prefix="verif-c11-") if (folder and sched_kind == "rr") else None
+        tmp = tempfile.mkdtemp(prefix="verif-c11-") if (folder and sched_kind == "rr" and use_folder) else None
         c = cal.Calibrator(loss_function=_RLoss(), real_data=np.zeros((2, 1)), model=model, parameters_bounds=[[0.0], [1.0]],
                            parameters_precision=[0.25], ensemble_size=E, verbose=False, saving_folder=tmp, random_state=3, n_jobs=1, **kw)
         return c, cnt, tmp
 
     msgs = []
     bad = False
-    twin, tcnt, tmp0 = run(None)
+    twin, tcnt, tmp0 = run(None, use_folder=False)
     cum, rows_at = [], []
     _upd = twin.scheduler.update
 
